@@ -8,6 +8,7 @@ harness/sweep.hh::exact_scale (unsigned 128-bit arithmetic, no Au code) and by P
 for the window alphabet, the threshold model and the constant-expression probes.
 """
 import json
+import re
 import math
 import os
 from collections import namedtuple
@@ -371,6 +372,9 @@ def ikey(i):
 
 
 RUN_TEMPLATE = r'''
+#include <csignal>
+#include <cstdio>
+#include <cstdlib>
 #include "c03_sweep.hh"
 #include "c05_ubsan.hh"   // counts EVERY sanitizer event (the full runtime reports each location only once)
 static inline unsigned long ub_total() { return vf5_ub_arith + vf5_ub_fcast + vf5_ub_other; }
@@ -380,6 +384,35 @@ template <bool B> using BoolC = std::integral_constant<bool, B>;
 struct Extra {
     unsigned long long ubchk_arith = 0, ubchk_other = 0, n_lat = 0, n_thr = 0;
 };
+
+// A trap raised inside the library (SIGFPE from a division by zero, SIGILL from a compiler-inserted trap, ...) while
+// it evaluates a checker or a conversion on an input of the swept domain is a violation for that input, not a
+// harness failure: the handler emits the record of the evaluation in progress and ends the process with status 86.
+static volatile int g_cur_id = -1;
+static volatile int g_cur_stage = 0;   // 0 = checkers, 1 = conversion of a cleared input
+static const char *volatile g_cur_T = "";
+static const char *volatile g_cur_shape = "";
+static volatile unsigned long long g_cur_N = 0, g_cur_D = 0, g_cur_bits = 0;
+static volatile bool g_cur_signed = false;
+extern "C" void vf3_trap(int sig) {
+    char xs[40];
+    if (g_cur_signed) std::snprintf(xs, sizeof xs, "%lld", (long long)g_cur_bits);
+    else std::snprintf(xs, sizeof xs, "%llu", (unsigned long long)g_cur_bits);
+    std::printf("\nV {\"inst\":%d,\"T\":\"%s\",\"u\":\"%s\",\"N\":\"%llu\",\"D\":\"%llu\",\"x\":\"%s\",\"kind\":\"%s\","
+                "\"lib\":{\"trunc\":-1,\"ovf\":-1,\"lossy\":-1},\"exact\":{\"trunc\":-1,\"prod_in_p\":-1,"
+                "\"outside_t\":-1,\"band\":-1,\"result\":\"\"},\"got\":\"signal %d\"}\n",
+                (int)g_cur_id, (const char *)g_cur_T, (const char *)g_cur_shape, (unsigned long long)g_cur_N,
+                (unsigned long long)g_cur_D, xs, g_cur_stage ? "trap-in-conversion" : "trap-in-checker", sig);
+    std::fflush(stdout);
+    std::_Exit(86);
+}
+static void install_traps() {
+    std::signal(SIGFPE, vf3_trap);
+    std::signal(SIGILL, vf3_trap);
+    std::signal(SIGSEGV, vf3_trap);
+    std::signal(SIGABRT, vf3_trap);
+    std::signal(SIGBUS, vf3_trap);
+}
 
 static void emit_v(int id, const char *T, const char *shape, unsigned long long N, unsigned long long D,
                    const std::string &x, const char *kind, bool lt, bool lo, bool ll,
@@ -430,6 +463,9 @@ __attribute__((noinline)) void eval_one(int id, typename I::T x, vf::Stats &st, 
         au::implicit_rep_permitted_from_source_to_target<T>(typename I::Src{}, typename I::Target{});
     const int SHOW = 3;
     const auto q = au::make_quantity<typename I::Src>(x);
+    g_cur_id = id; g_cur_stage = 0; g_cur_T = I::tname(); g_cur_shape = I::shape(); g_cur_N = I::N; g_cur_D = I::D;
+    g_cur_signed = std::is_signed<T>::value;
+    g_cur_bits = std::is_signed<T>::value ? (unsigned long long)(long long)x : (unsigned long long)x;
     const vf5::UbSnap u0 = vf5::ub_now();
     const bool lt = au::will_conversion_truncate(q, target);
     const bool lo = au::will_conversion_overflow(q, target);
@@ -464,6 +500,7 @@ __attribute__((noinline)) void eval_one(int id, typename I::T x, vf::Stats &st, 
         } else {
             const T expect = e.neg ? static_cast<T>(-(vf::i128)e.q) : static_cast<T>(e.q);
             const unsigned long ub1 = ub_total();
+            g_cur_stage = 1;
             const T r1 = q.coerce_in(target);
             const T r2 = q.coerce_as(target).in(target);
             bool bad = (r1 != expect) || (r2 != expect);
@@ -540,6 +577,7 @@ def emit_tu(path, insts, ivs, thresholds=True, lattice=True):
     out.append("}")
     out.append("int main(int argc, char **argv) {")
     out.append("  int part = argc > 1 ? std::atoi(argv[1]) : 0, nparts = argc > 2 ? std::atoi(argv[2]) : 1;")
+    out.append("  install_traps();")
     out.append("  int k = 0;")
     for i in insts:
         out.append("  if (k++ %% nparts == part) run<I%d>(%d, IV%d, %d);" % (i.id, i.id, i.id, len(ivs[i.id])))
@@ -647,17 +685,35 @@ def build_and_run(run, cfg, tag, insts, ivs, flags, nsplit, parts_per_bin=1, tim
         env = dict(os.environ)
         env["UBSAN_OPTIONS"] = "halt_on_error=0:print_stacktrace=0:silence_unsigned_overflow=0"
         rc, out, err = core.sh([exe, str(part), str(parts_per_bin)], timeout=timeout, env=env)
+        if rc == 86 and '"kind":"trap-' in out:
+            return out   # a trap inside the library: the handler has emitted the violation record
         if rc != 0:
             raise core.InfraError("sweep binary %s failed rc=%d: %s" % (exe, rc, err[-2000:]))
         return out
 
     stats, viols = [], []
     for out in core.pmap(runexe, jobs):
+        trapped = '"kind":"trap-' in out
         for line in out.split("\n"):
-            if line.startswith("S "):
-                stats.append(json.loads(line[2:]))
-            elif line.startswith("V "):
-                viols.append(json.loads(line[2:]))
+            try:
+                if line.startswith("S "):
+                    stats.append(json.loads(line[2:]))
+                elif line.startswith("V "):
+                    viols.append(json.loads(line[2:]))
+            except ValueError:
+                # A V record that is not valid JSON: either cut short by a trap (the handler's record follows), or
+                # the harness's own local state was clobbered by undefined behaviour inside the library call that
+                # preceded it (seen with clang -O2 and a checker that computes x % 0).  The identifying fields are
+                # printed first; what can be recovered is reported as a violation of its own kind.
+                m = re.match(r'V \{"inst":(\d+),"T":"([^"]*)","u":"([^"]*)","N":"(\d+)","D":"(\d+)","x":"(-?\d+)"', line)
+                if m:
+                    viols.append({"inst": int(m.group(1)), "T": m.group(2), "u": m.group(3), "N": m.group(4),
+                                  "D": m.group(5), "x": m.group(6), "kind": "ub-corrupted-record",
+                                  "lib": {"trunc": -1, "ovf": -1, "lossy": -1},
+                                  "exact": {"trunc": -1, "prod_in_p": -1, "outside_t": -1, "band": -1, "result": ""},
+                                  "got": "unparsable record"})
+                elif not trapped:
+                    raise
     return stats, viols, nocompile
 
 
@@ -735,9 +791,9 @@ def constexpr_probes(run, kinds, reps):
     return out, nacc, len(probes) * len(core.CFG6)
 
 
-C03_KINDS = {"cleared-not-exact", "cleared-wrong-value", "ubsan-in-conversion", "conversion-no-compile",
+C03_KINDS = {"cleared-not-exact", "cleared-wrong-value", "ubsan-in-conversion", "trap-in-conversion", "ub-corrupted-record", "conversion-no-compile",
              "checker-no-compile", "sweep-no-compile", "constexpr-conversion"}
-C04_KINDS = {"trunc-fp", "trunc-fn", "ovf-fp", "ovf-fn", "lossy-fp", "lossy-fn",
+C04_KINDS = {"trunc-fp", "trunc-fn", "ovf-fp", "ovf-fn", "lossy-fp", "lossy-fn", "trap-in-checker", "ub-corrupted-record",
              "lossy-not-disjunction", "conversion-no-compile", "checker-no-compile", "sweep-no-compile",
              "constexpr-checker"}
 
@@ -1079,7 +1135,14 @@ def explore_float(run, only=None):
             ("10^308", model.vpow(model.mag_int(10), 308)), ("10^309", model.vpow(model.mag_int(10), 309)),
             ("10^-308", model.vpow(model.mag_int(10), -308)), ("(2^24+1)/2^24", model.mag_ratio(2 ** 24 + 1, 2 ** 24)),
             ("2^24/(2^24+1)", model.mag_ratio(2 ** 24, 2 ** 24 + 1)), ("1001/1000", model.mag_ratio(1001, 1000)),
-            ("999/1000", model.mag_ratio(999, 1000))]
+            ("999/1000", model.mag_ratio(999, 1000)),
+            # rationals whose numerator (or denominator) alone is outside a type's range while the ratio is well inside it
+            ("10^39/7", model.vdiv(model.vpow(model.mag_int(10), 39), model.mag_int(7))),
+            ("7/10^39", model.vdiv(model.mag_int(7), model.vpow(model.mag_int(10), 39))),
+            ("10^309/7", model.vdiv(model.vpow(model.mag_int(10), 309), model.mag_int(7))),
+            ("2^130/3^80", model.vdiv(model.vpow(model.mag_int(2), 130), model.vpow(model.mag_int(3), 80))),
+            ("3^85/2^130", model.vdiv(model.vpow(model.mag_int(3), 85), model.vpow(model.mag_int(2), 130))),
+            ("2^1030/3^640", model.vdiv(model.vpow(model.mag_int(2), 1030), model.vpow(model.mag_int(3), 640)))]
     if only is not None:
         mags = [x for x in mags if x[0] == only[1]]
     cands = [(t, name, m) for t in core.F3 for name, m in mags if only is None or t == only[0]]
